@@ -127,6 +127,11 @@ def build():
         os.stat_result((33188, 1, 2, 1, 0, 0, 10, 100, 200, 300)),
         os.stat_result((Weird(), 1, 2, 1, 0, 0, 10, 100, 200, Weird())),
         os.stat_result((33188, 9, 2, 1, 0, 0, 10, 1, 2, 3)),
+        # empty and degenerate instances (special-cased by their printers), alone and nested
+        collections.ChainMap(), collections.ChainMap({}), collections.ChainMap({}, {}), [collections.ChainMap(), {'m': collections.ChainMap({})}],
+        collections.deque(), collections.deque(maxlen=0), collections.OrderedDict(), collections.defaultdict(list),
+        collections.Counter(), types.SimpleNamespace(), [set(), frozenset(), (), [], {}, '', b''],
+        functools.partial(print), collections.defaultdict(None), collections.deque([[]], maxlen=1),
         # values that are EQUAL (and hash alike) but must print differently: anything remembered by value confuses them
         0.0, -0.0, [0.0, -0.0], 1, True, 1.0, [1, True, 1.0], 'alpha', valgen.subclass('str', 'plain')('alpha'),
         b'raw', valgen.subclass('bytes', 'plain')(b'raw'), valgen.subclass('int', 'plain')(1),
